@@ -534,5 +534,7 @@ def run(cx, out):
     # least the table maxima (C13 R13.1, the general form of R04.4)
     # ... and the fixed buffer behind using_encoded appends exactly what it is given (C07 R07.3), so all entry points of the
     # compact encoders produce the bytes the tables describe (R07.1)
-    shared.premises(cx, out, {'c18': {'R18.1', 'R18.2'}, 'c13': {'R13.1'}, 'c07': {'R07.1', 'R07.3'}})
+    # "accepts a byte string iff ..." is decided from the bytes an input delivers: every provided input delivers exactly its
+    # bytes or fails, without panicking (C08 R08.2 read_byte overrides forward or are audited, R08.3 refusal decisions)
+    shared.premises(cx, out, {'c18': {'R18.1', 'R18.2'}, 'c13': {'R13.1'}, 'c07': {'R07.1', 'R07.3'}, 'c08': {'R08.2', 'R08.3'}})
 
